@@ -179,6 +179,14 @@ fn queries(name: &str, alias: &str) -> Vec<String> {
     if !name.is_ascii() {
         q.push(name.chars().map(|c| if (c as u32) > 0x7F && ((c as u32 & 0xFF) as u8).is_ascii_graphic() && (c as u32 & 0xFF) as u8 != b'/' { (c as u32 & 0xFF) as u8 as char } else { c }).collect());
     }
+    // what a careless 8.3 conversion makes of the name: the characters an alias cannot hold dropped (spaces, extra dots)
+    // or replaced by '_' - a different name unless it happens to be the alias itself
+    {
+        let dropped: String = name.chars().filter(|c| *c != ' ').collect();
+        q.push(dropped);
+        let replaced: String = name.chars().filter(|c| *c != ' ').map(|c| if c.is_ascii_alphanumeric() || "$%'-_@~`!(){}^#&.".contains(c) { c } else { '_' }).collect();
+        q.push(replaced);
+    }
     q.push(format!("{}x", name));
     q.push(format!("x{}", name));
     q.push(format!("{}.", name));
@@ -807,6 +815,9 @@ pub fn run(tier: Tier, seed: u64) -> i32 {
                             1 => "[一-鿿]{80,90}",
                             2 => "[a-z .]{10,16}",
                             1 => "[a-zA-Z0-9]{1,8}\\.[a-zA-Z0-9]{0,4}",
+                            // a clean base name with an extension that needs mangling, and the other way round
+                            2 => "[a-z0-9]{1,8}\\.[a-z +,;=\\[\\]é]{1,3}",
+                            2 => "[a-z +,;=\\[\\]é]{1,8}\\.[a-z0-9]{1,3}",
                             1 => "(\\.|~|_|-)[a-z0-9~.]{0,12}",
                         ],
                         0u8..3,
